@@ -80,7 +80,9 @@ func must(err error) {
 func RunTLC(o TLCOpts, onJSON func(raw []byte)) (TLCStats, error) {
 	var st TLCStats
 	dir := newWorkDir(o.Module)
-	defer os.RemoveAll(dir)
+	if os.Getenv("VERIF_KEEP") == "" {
+		defer os.RemoveAll(dir)
+	}
 	specs, _ := filepath.Glob("/verif/spec/*.tla")
 	for _, s := range specs {
 		b, err := os.ReadFile(s)
@@ -196,9 +198,26 @@ func RunTLC(o TLCOpts, onJSON func(raw []byte)) (TLCStats, error) {
 	}
 	if werr != nil && st.Violated == "" && !st.PostFailed {
 		// exit codes: 0 ok, 10..13 violations, others = errors
-		return st, fmt.Errorf("tlc exit %d: %s", st.ExitCode, tail(st.Output, 30))
+		return st, fmt.Errorf("tlc exit %d: %s", st.ExitCode, head(st.Output, 60))
 	}
 	return st, nil
+}
+
+func head(s string, n int) string {
+	ls := strings.Split(s, "\n")
+	// skip the banner
+	start := 0
+	for i, l := range ls {
+		if strings.HasPrefix(l, "Error") || strings.Contains(l, "rror:") {
+			start = i
+			break
+		}
+	}
+	ls = ls[start:]
+	if len(ls) > n {
+		ls = ls[:n]
+	}
+	return strings.Join(ls, "\n")
 }
 
 func tail(s string, n int) string {
